@@ -19,6 +19,7 @@ import GB.C17.Driver
 import GB.C18.Driver
 import GB.C19.Driver
 import GB.C20.Driver
+import GB.Stack.Driver
 
 open GB GB.Proto
 
@@ -44,6 +45,7 @@ def handlerFor : String → Option Handler
   | "c18" => some GB.C18.handle
   | "c19" => some GB.C19.handle
   | "c20" => some GB.C20.handle
+  | "stack" => some GB.Stack.handle
   | _ => none
 
 partial def loop (h : IO.FS.Stream) (out : IO.FS.Stream) (f : Handler) : IO Unit := do
